@@ -37,6 +37,7 @@ PROPS["C11"] = {
         "pkg": "curve", "configs": ALL4,
         "tests": {
             "TestC11Decode": T(8000, 500000),
+            "TestC11MarshalOwnership": T(1500, 40000),
             "TestC11DecodeList": LIST(),
             "TestC11Lengths": LIST(),
             "TestC11AnyLen": T(2000, 100000),
